@@ -28,7 +28,7 @@ class C41(core.Prop):
 
     def strategy(self, tier):
         big = tier == "thorough"
-        prog = syncgen.programs(kinds=("mutex", "sem", "cond", "barrier", "mailbox", "random", "assert"), max_actors=3,
+        prog = syncgen.programs(kinds=("mutex", "sem", "cond", "barrier", "mailbox", "random", "assert", "tick"), max_actors=3,
                                 max_ops=8 if big else 6, mc=True, max_mutex=2, max_sem=1, max_cond=1, max_bar=1, profile="contention")
         return st.tuples(prog, st.sampled_from(REDUCTIONS + ["none"])).map(lambda t: {"program": t[0], "reduction": t[1]})
 
